@@ -101,6 +101,7 @@ type Node struct {
 	// text
 	Parts     []Part
 	Unescaped bool // "! text" / "!= expr"
+	SpaceIndent bool // the last tab of the indentation is written as a blank (only where the line is not deeper than the one before)
 	LeadEsc   bool // line starts with backslash escape
 	// script
 	Expr string
@@ -329,8 +330,28 @@ func (p *Printer) attrs(n *Node, tabs string) {
 	p.w("}")
 }
 
+// lastLineIndent: length of the white space the last complete line starts with (-1: no line yet)
+func (p *Printer) lastLineIndent() int {
+	t := p.sb.String()
+	if !strings.HasSuffix(t, "\n") {
+		return -1
+	}
+	t = t[:len(t)-1]
+	l := t[strings.LastIndex(t, "\n")+1:]
+	return len(l) - len(strings.TrimLeft(l, "\t "))
+}
+
 func (p *Printer) node(n *Node, indent int) {
 	tabs := strings.Repeat("\t", indent)
+	if n.SpaceIndent && indent >= 1 && p.lastLineIndent() >= indent {
+		switch n.Kind {
+		case KElem, KText, KScript, KRender, KChildren:
+			// a blank where the last tab would be: the compiler accepts it on a line that is not deeper than the line
+			// before it, and measures depth by length
+			p.feat("indent.blank-for-last-tab")
+			tabs = tabs[:indent-1] + " "
+		}
+	}
 	switch n.Kind {
 	case KDoctype:
 		p.feat("doctype")
